@@ -32,12 +32,12 @@ The exceptions are reported as candidate defects in /verif/notes/C18-design.md.
 -/
 
 namespace Iox2.C18
-open Iox2.Gen.FfiErrors
+open Iox2.Ffi Iox2.Gen.FfiErrors
 
 /-! ## the statements -/
 
-def cNames (e : CEnum) : List String := e.variants.map (·.name)
-def image (e : CEnum) : List String := e.mappings.flatMap (fun m => m.table.map (·.2))
+def cNames (e : CEnum) : List Name := e.variants.map (·.name)
+def image (e : CEnum) : List Name := e.mappings.flatMap (fun m => m.table.map (·.2))
 
 def WellFormed (e : CEnum) : Prop :=
   (cNames e).Nodup ∧ (∀ d ∈ e.direct, d ∈ cNames e) ∧
@@ -47,8 +47,8 @@ def WellFormed (e : CEnum) : Prop :=
 def CodesDistinct (e : CEnum) : Prop := (e.variants.map (·.code)).Nodup
 def CodesNonzero (e : CEnum) : Prop := ∀ v ∈ e.variants, v.code ≠ IOX2_OK
 def HasStringFn (e : CEnum) : Prop := e.hasStringFn = true
-def NamesNonempty (e : CEnum) : Prop := ∀ v ∈ e.variants, v.printable ≠ ""
-def NamesDistinct (e : CEnum) : Prop := ((e.variants.map (·.printable)).filter (· ≠ "")).Nodup
+def NamesNonempty (e : CEnum) : Prop := ∀ v ∈ e.variants, ¬ v.printable.isEmpty
+def NamesDistinct (e : CEnum) : Prop := ((e.variants.map (·.printable)).filter (fun p => decide (¬ p.isEmpty))).Nodup
 def MappingTotal (e : CEnum) : Prop := ∀ m ∈ e.mappings, ∀ r ∈ m.rustVariants, r ∈ m.table.map (·.1)
 def MappingInjective (e : CEnum) : Prop := ∀ m ∈ e.mappings, (m.table.map (·.2)).Nodup
 def MappingOnto (e : CEnum) : Prop := ∀ v ∈ e.variants, v.name ∈ image e ∨ v.name ∈ e.direct
@@ -77,10 +77,10 @@ theorem codes_distinct : ∀ e ∈ allEnums, CodesDistinct e := by decide +kerne
 /-- non-vacuity: the table is not empty, has mappings, and contains the enums of the anchored files -/
 example : allEnums.length ≥ 40 ∧ (allEnums.map (fun e => e.mappings.length)).sum ≥ 40 ∧
     (allEnums.map (fun e => e.variants.length)).sum ≥ 250 := by decide +kernel
-example : ∀ n ∈ ["iox2_send_error_e", "iox2_loan_error_e", "iox2_receive_error_e", "iox2_notifier_notify_error_e",
-    "iox2_listener_wait_error_e", "iox2_pub_sub_open_or_create_error_e", "iox2_node_creation_failure_e",
-    "iox2_request_send_error_e", "iox2_publisher_create_error_e", "iox2_subscriber_create_error_e",
-    "iox2_semantic_string_error_e"], n ∈ allEnums.map (·.name) := by decide +kernel
+example : ∀ n ∈ [n! "iox2_send_error_e", n! "iox2_loan_error_e", n! "iox2_receive_error_e", n! "iox2_notifier_notify_error_e",
+    n! "iox2_listener_wait_error_e", n! "iox2_pub_sub_open_or_create_error_e", n! "iox2_node_creation_failure_e",
+    n! "iox2_request_send_error_e", n! "iox2_publisher_create_error_e", n! "iox2_subscriber_create_error_e",
+    n! "iox2_semantic_string_error_e"], n ∈ allEnums.map (·.name) := by decide +kernel
 
 /-! ## codes are non-zero — FALSE: one failure code equals `IOX2_OK` -/
 
@@ -88,8 +88,8 @@ example : ∀ n ∈ ["iox2_send_error_e", "iox2_loan_error_e", "iox2_receive_err
     `iox2_connection_failure_e` (subscriber.rs) does not start at `IOX2_OK + 1`: `ConnectionFailure::
     FailedToEstablishConnection` is returned as 0 by `iox2_subscriber_has_samples` /
     `iox2_publisher_update_connections`, i.e. as success. -/
-def nonzeroExceptions : List (String × String) :=
-  [("iox2_connection_failure_e", "FAILED_TO_ESTABLISH_CONNECTION")]
+def nonzeroExceptions : List (Name × Name) :=
+  [(n! "iox2_connection_failure_e", n! "FAILED_TO_ESTABLISH_CONNECTION")]
 
 -- full statement (false): ∀ e ∈ allEnums, CodesNonzero e
 theorem codes_nonzero_refuted : ¬ ∀ e ∈ allEnums, CodesNonzero e := by decide +kernel
@@ -104,10 +104,10 @@ theorem codes_nonzero_exceptions_exact :
 
 /-! ## every enum has a `…_string` function — FALSE for seven enums -/
 
-def stringFnExceptions : List String :=
-  ["iox2_allocation_grow_error_e", "iox2_flatbuffer_find_schema_file_error_e", "iox2_node_cleanup_failure_e",
-   "iox2_service_name_error_e", "iox2_service_remove_error_e", "iox2_type_detail_error_e",
-   "iox2_waitset_run_result_e"]
+def stringFnExceptions : List Name :=
+  [n! "iox2_allocation_grow_error_e", n! "iox2_flatbuffer_find_schema_file_error_e", n! "iox2_node_cleanup_failure_e",
+   n! "iox2_service_name_error_e", n! "iox2_service_remove_error_e", n! "iox2_type_detail_error_e",
+   n! "iox2_waitset_run_result_e"]
 
 -- full statement (false): ∀ e ∈ allEnums, HasStringFn e
 theorem has_string_fn_refuted : ¬ ∀ e ∈ allEnums, HasStringFn e := by decide +kernel
@@ -120,44 +120,44 @@ theorem has_string_fn_exceptions_exact :
 
 /-! ## printable names are non-empty — FALSE for the one enum that does not derive `CStrRepr` -/
 
-def nameExceptions : List (String × String) :=
-  [("iox2_type_detail_error_e", "INVALID_TYPE_NAME"), ("iox2_type_detail_error_e", "INVALID_SIZE_OR_ALIGNMENT_VALUE")]
+def nameExceptions : List (Name × Name) :=
+  [(n! "iox2_type_detail_error_e", n! "INVALID_TYPE_NAME"), (n! "iox2_type_detail_error_e", n! "INVALID_SIZE_OR_ALIGNMENT_VALUE")]
 
 -- full statement (false): ∀ e ∈ allEnums, NamesNonempty e
 theorem names_nonempty_refuted : ¬ ∀ e ∈ allEnums, NamesNonempty e := by decide +kernel
 
 theorem names_nonempty_partial :
-    ∀ e ∈ allEnums, ∀ v ∈ e.variants, (e.name, v.name) ∉ nameExceptions → v.printable ≠ "" := by
+    ∀ e ∈ allEnums, ∀ v ∈ e.variants, (e.name, v.name) ∉ nameExceptions → ¬ v.printable.isEmpty := by
   decide +kernel
 
 theorem names_nonempty_exceptions_exact :
-    ∀ x ∈ nameExceptions, ∃ e ∈ allEnums, e.name = x.1 ∧ ∃ v ∈ e.variants, v.name = x.2 ∧ v.printable = "" := by
+    ∀ x ∈ nameExceptions, ∃ e ∈ allEnums, e.name = x.1 ∧ ∃ v ∈ e.variants, v.name = x.2 ∧ v.printable.isEmpty := by
   decide +kernel
 
 /-! ## printable names are pairwise distinct — FALSE: the three open-or-create enums print the same text
     for the `O_…` (open failed) and the `C_…` (create failed) variant of the same cause -/
 
 /-- (enum, variant): the variants whose printable name repeats the name of an earlier variant of the same enum -/
-def duplicateNameExceptions : List (String × String) :=
-  [("iox2_event_open_or_create_error_e", "C_SERVICE_IN_CORRUPTED_STATE"),
-   ("iox2_event_open_or_create_error_e", "C_INTERNAL_FAILURE"),
-   ("iox2_event_open_or_create_error_e", "C_INSUFFICIENT_PERMISSIONS"),
-   ("iox2_event_open_or_create_error_e", "C_UNABLE_TO_CREATE_SERVICE_TAG"),
-   ("iox2_event_open_or_create_error_e", "C_INTERRUPT"),
-   ("iox2_pub_sub_open_or_create_error_e", "C_SERVICE_IN_CORRUPTED_STATE"),
-   ("iox2_pub_sub_open_or_create_error_e", "C_INSUFFICIENT_PERMISSIONS"),
-   ("iox2_pub_sub_open_or_create_error_e", "C_INTERNAL_FAILURE"),
-   ("iox2_pub_sub_open_or_create_error_e", "C_HANGS_IN_CREATION"),
-   ("iox2_pub_sub_open_or_create_error_e", "C_UNABLE_TO_CREATE_SERVICE_TAG"),
-   ("iox2_pub_sub_open_or_create_error_e", "C_INTERRUPT"),
-   ("iox2_pub_sub_open_or_create_error_e", "C_UNABLE_TO_ACQUIRE_TYPE_DEFINITION"),
-   ("iox2_request_response_open_or_create_error_e", "C_INTERNAL_FAILURE"),
-   ("iox2_request_response_open_or_create_error_e", "C_INSUFFICIENT_PERMISSIONS"),
-   ("iox2_request_response_open_or_create_error_e", "C_HANGS_IN_CREATION"),
-   ("iox2_request_response_open_or_create_error_e", "C_SERVICE_IN_CORRUPTED_STATE"),
-   ("iox2_request_response_open_or_create_error_e", "C_UNABLE_TO_CREATE_SERVICE_TAG"),
-   ("iox2_request_response_open_or_create_error_e", "C_INTERRUPT"),
-   ("iox2_request_response_open_or_create_error_e", "C_UNABLE_TO_ACQUIRE_TYPE_DEFINITION")]
+def duplicateNameExceptions : List (Name × Name) :=
+  [(n! "iox2_event_open_or_create_error_e", n! "C_SERVICE_IN_CORRUPTED_STATE"),
+   (n! "iox2_event_open_or_create_error_e", n! "C_INTERNAL_FAILURE"),
+   (n! "iox2_event_open_or_create_error_e", n! "C_INSUFFICIENT_PERMISSIONS"),
+   (n! "iox2_event_open_or_create_error_e", n! "C_UNABLE_TO_CREATE_SERVICE_TAG"),
+   (n! "iox2_event_open_or_create_error_e", n! "C_INTERRUPT"),
+   (n! "iox2_pub_sub_open_or_create_error_e", n! "C_SERVICE_IN_CORRUPTED_STATE"),
+   (n! "iox2_pub_sub_open_or_create_error_e", n! "C_INSUFFICIENT_PERMISSIONS"),
+   (n! "iox2_pub_sub_open_or_create_error_e", n! "C_INTERNAL_FAILURE"),
+   (n! "iox2_pub_sub_open_or_create_error_e", n! "C_HANGS_IN_CREATION"),
+   (n! "iox2_pub_sub_open_or_create_error_e", n! "C_UNABLE_TO_CREATE_SERVICE_TAG"),
+   (n! "iox2_pub_sub_open_or_create_error_e", n! "C_INTERRUPT"),
+   (n! "iox2_pub_sub_open_or_create_error_e", n! "C_UNABLE_TO_ACQUIRE_TYPE_DEFINITION"),
+   (n! "iox2_request_response_open_or_create_error_e", n! "C_INTERNAL_FAILURE"),
+   (n! "iox2_request_response_open_or_create_error_e", n! "C_INSUFFICIENT_PERMISSIONS"),
+   (n! "iox2_request_response_open_or_create_error_e", n! "C_HANGS_IN_CREATION"),
+   (n! "iox2_request_response_open_or_create_error_e", n! "C_SERVICE_IN_CORRUPTED_STATE"),
+   (n! "iox2_request_response_open_or_create_error_e", n! "C_UNABLE_TO_CREATE_SERVICE_TAG"),
+   (n! "iox2_request_response_open_or_create_error_e", n! "C_INTERRUPT"),
+   (n! "iox2_request_response_open_or_create_error_e", n! "C_UNABLE_TO_ACQUIRE_TYPE_DEFINITION")]
 
 def keptVariants (e : CEnum) : List CVariant :=
   e.variants.filter (fun v => (e.name, v.name) ∉ duplicateNameExceptions)
@@ -167,7 +167,7 @@ theorem names_distinct_refuted : ¬ ∀ e ∈ allEnums, NamesDistinct e := by de
 
 /-- without the listed variants the (non-empty) printable names of every enum are pairwise distinct -/
 theorem names_distinct_partial :
-    ∀ e ∈ allEnums, (((keptVariants e).map (·.printable)).filter (· ≠ "")).Nodup := by decide +kernel
+    ∀ e ∈ allEnums, (((keptVariants e).map (·.printable)).filter (fun p => decide (¬ p.isEmpty))).Nodup := by decide +kernel
 
 /-- every listed variant really prints the same text as another, not listed, variant of its enum -/
 theorem names_distinct_exceptions_exact :
@@ -180,9 +180,9 @@ theorem names_distinct_exceptions_exact :
     `… for EventOpenOrCreateError` end in the arm `e => e.into_c_int()`, which for the only remaining variant
     `SystemInFlux` calls the same function with the same value: unbounded recursion instead of
     `SYSTEM_IN_FLUX` (the request-response binding has the explicit arm). -/
-def totalityExceptions : List (String × String × String) :=
-  [("iox2_event_open_or_create_error_e", "EventOpenOrCreateError", "SystemInFlux"),
-   ("iox2_pub_sub_open_or_create_error_e", "PublishSubscribeOpenOrCreateError", "SystemInFlux")]
+def totalityExceptions : List (Name × Name × Name) :=
+  [(n! "iox2_event_open_or_create_error_e", n! "EventOpenOrCreateError", n! "SystemInFlux"),
+   (n! "iox2_pub_sub_open_or_create_error_e", n! "PublishSubscribeOpenOrCreateError", n! "SystemInFlux")]
 
 -- full statement (false): ∀ e ∈ allEnums, MappingTotal e
 theorem mapping_total_refuted : ¬ ∀ e ∈ allEnums, MappingTotal e := by decide +kernel
@@ -203,11 +203,11 @@ theorem mapping_total_exceptions_exact :
     * `EventOpenError::Interrupt => …::C_INTERRUPT` (service_builder_event.rs): the open failure is reported
       with the code of the create failure, so `EventOpenOrCreateError` maps two variants to `C_INTERRUPT`;
       `O_INTERRUPT` is never returned. -/
-def injectivityExceptions : List (String × String × String) :=
-  [("iox2_event_open_or_create_error_e", "EventOpenOrCreateError", "EventOpenError(Interrupt)"),
-   ("iox2_service_remove_error_e", "ServiceRemoveError", "VersionMismatch")]
+def injectivityExceptions : List (Name × Name × Name) :=
+  [(n! "iox2_event_open_or_create_error_e", n! "EventOpenOrCreateError", n! "EventOpenError(Interrupt)"),
+   (n! "iox2_service_remove_error_e", n! "ServiceRemoveError", n! "VersionMismatch")]
 
-def keptRows (e : CEnum) (m : Mapping) : List (String × String) :=
+def keptRows (e : CEnum) (m : Mapping) : List (Name × Name) :=
   m.table.filter (fun r => (e.name, m.rustEnum, r.1) ∉ injectivityExceptions)
 
 -- full statement (false): ∀ e ∈ allEnums, MappingInjective e
@@ -229,19 +229,19 @@ theorem mapping_injective_exceptions_exact :
     * `TERMINATION_REQUEST`, `INTERRUPT` of `iox2_waitset_run_error_e`: `WaitSetRunError` has three variants only
       (termination/interrupt are reported through `iox2_waitset_run_result_e`);
     * `iox2_flatbuffer_find_schema_file_error_e`: declared in flatbuffer.rs, not used by any function of the crate. -/
-def ontoExceptions : List (String × String) :=
-  [("iox2_event_open_or_create_error_e", "O_INTERRUPT"),
-   ("iox2_event_open_or_create_error_e", "C_OLD_CONNECTION_STILL_ACTIVE"),
-   ("iox2_event_open_or_create_error_e", "SYSTEM_IN_FLUX"),
-   ("iox2_flatbuffer_find_schema_file_error_e", "INVALID_TYPE_NAME_CHARACTERS"),
-   ("iox2_flatbuffer_find_schema_file_error_e", "INVALID_TYPE_NAMESPACE_CHARACTERS"),
-   ("iox2_flatbuffer_find_schema_file_error_e", "INVALID_ROOT_PATH"),
-   ("iox2_flatbuffer_find_schema_file_error_e", "BUFFER_TOO_SMALL"),
-   ("iox2_flatbuffer_find_schema_file_error_e", "NO_SCHEMA_FILE_FOUND"),
-   ("iox2_pub_sub_open_or_create_error_e", "SYSTEM_IN_FLUX"),
-   ("iox2_service_remove_error_e", "VERSION_MISMATCH"),
-   ("iox2_waitset_run_error_e", "TERMINATION_REQUEST"),
-   ("iox2_waitset_run_error_e", "INTERRUPT")]
+def ontoExceptions : List (Name × Name) :=
+  [(n! "iox2_event_open_or_create_error_e", n! "O_INTERRUPT"),
+   (n! "iox2_event_open_or_create_error_e", n! "C_OLD_CONNECTION_STILL_ACTIVE"),
+   (n! "iox2_event_open_or_create_error_e", n! "SYSTEM_IN_FLUX"),
+   (n! "iox2_flatbuffer_find_schema_file_error_e", n! "INVALID_TYPE_NAME_CHARACTERS"),
+   (n! "iox2_flatbuffer_find_schema_file_error_e", n! "INVALID_TYPE_NAMESPACE_CHARACTERS"),
+   (n! "iox2_flatbuffer_find_schema_file_error_e", n! "INVALID_ROOT_PATH"),
+   (n! "iox2_flatbuffer_find_schema_file_error_e", n! "BUFFER_TOO_SMALL"),
+   (n! "iox2_flatbuffer_find_schema_file_error_e", n! "NO_SCHEMA_FILE_FOUND"),
+   (n! "iox2_pub_sub_open_or_create_error_e", n! "SYSTEM_IN_FLUX"),
+   (n! "iox2_service_remove_error_e", n! "VERSION_MISMATCH"),
+   (n! "iox2_waitset_run_error_e", n! "TERMINATION_REQUEST"),
+   (n! "iox2_waitset_run_error_e", n! "INTERRUPT")]
 
 -- full statement (false): ∀ e ∈ allEnums, MappingOnto e
 theorem mapping_onto_refuted : ¬ ∀ e ∈ allEnums, MappingOnto e := by decide +kernel
@@ -256,7 +256,7 @@ theorem mapping_onto_exceptions_exact :
 
 /-! ## the request-response open-or-create mapping is the pattern the two others should follow:
     total, and `SYSTEM_IN_FLUX` is produced (non-vacuity of `MappingTotal` on a three-level mapping) -/
-example : ∃ e ∈ allEnums, e.name = "iox2_request_response_open_or_create_error_e" ∧ MappingTotal e ∧
+example : ∃ e ∈ allEnums, e.name = n! "iox2_request_response_open_or_create_error_e" ∧ MappingTotal e ∧
     MappingInjective e ∧ MappingOnto e ∧ e.mappings.length = 3 := by decide +kernel
 
 end Iox2.C18
